@@ -1,6 +1,6 @@
 // ---- stand-in for resolvo::solver::clause::Literal (NonZeroU32 bit encoding).  Its contracts are NOT trusted:
 // each is proved on the real code by the loop-free, full-domain Kani harness set `lit` (kani/verif_kani.rs:
-// lit_new_roundtrip, lit_positive_negative, lit_eq_iff_same_variable_and_polarity) and `lit_eval`
+// lit_new_roundtrip, lit_positive_negative, lit_eq_iff_same_variable_and_polarity); `eval` is the real function
 // (bounded only in the DecisionMap index).  ./check runs those harnesses whenever a unit uses this stand-in.
 #[verifier::external_body]
 #[derive(Copy, Clone)]
@@ -58,8 +58,9 @@ impl Literal {
     pub fn variable(self) -> (r: VariableId)
         ensures r.idx() == self.var(),
     { unimplemented!() }
-    #[verifier::external_body]
-    pub fn eval(self, decision_map: &DecisionMap) -> (r: Option<bool>)
+    // the real Literal::eval, verified on top of variable()/negate() (Kani, full domain) and DecisionMap::value (unit dec)
+    //@fn src/solver/clause.rs Literal::eval ret=r
+    //@spec
         ensures r == self.value_under(decision_map.raw(self.var() as int)),
-    { unimplemented!() }
+    //@end
 }
